@@ -32,9 +32,11 @@ class C08(Prop):
                 "NV.C08.load_order_tie", "NV.C08.clone_order_tie", "NV.C08.find_or_load_order_tie",
                 "NV.C08.hb_remove_order_tie", "NV.C08.present2_order_tie", "NV.C08.flag_bits_tie", "NV.C08.superWalk_clear", "NV.C08.acyclic_redirect", "NV.C08.init_inv",
                 "NV.C08.objects_order_tie", "NV.C08.hb_ops_tie", "NV.C08.hash_prefix_tie", "NV.C08.add_action_cond_tie",
-                "NV.C08.living_command_cond_tie", "NV.C08.move_cond_tie", "NV.C08.destruct_cond_tie",
+                "NV.C08.living_command_cond_tie", "NV.C08.move_cond_tie", "NV.C08.destruct_cond_tie", "NV.C08.inherit_order_tie",
                 "NV.C08.move_walk_terminates", "NV.C08.task_no_hang", "NV.C08.no_hang", "NV.C08.objects_filter_sound",
-                "NV.C08.catch_contains_errors", "NV.C08.catch_restores_guards"]
+                "NV.C08.catch_contains_errors", "NV.C08.catch_restores_guards",
+                "NV.C08.absMap_spec", "NV.C08.lookup_refines_read", "NV.C08.enter_refines_insert",
+                "NV.C08.enter_refused_when_present", "NV.C08.remove_refines_delete", "NV.C08.table_is_map_reachable"]
     consts = [("oDestructed", "O_DESTRUCTED"), ("oEnableCommands", "O_ENABLE_COMMANDS"), ("oClone", "O_CLONE")]
     const_headers = ["lpc/object.h"]
     quick_n = 700
@@ -255,6 +257,18 @@ class C08(Prop):
             "objectsFilterSkipCond": cond("lib/lpc/array.c", r"\nf_objects \(void\)\s*\{",
                                           r"ob = tmp\[j\];\s*if \((.*?)\)\s*continue;", "objectsFilterSkipCond"),
         }
+        load_hdr = r"\nobject_t\* load_object \(const char \*mudlib_filename, const char \*pre_text\) \{"
+        orders["inheritOrder"] = order("src/simulate.c", load_hdr, [
+            ("depth-guard", r"\+\+num_objects_this_thread > CONFIG_INT \(__INHERIT_CHAIN_SIZE__\)"),
+            ("self-inherit-error", r"Illegal to inherit self"),
+            ("lookup-inherited", r"inh_obj = lookup_object_hash \(inhbuf\)"),
+            ("load-inherited", r"inh_obj = load_object \(inhbuf, 0\);"),
+            ("missing-inherited-error", r"Inherited file '/%s' does not exist"),
+            ("relookup-self", r"ob = lookup_object_hash \(name\)"),
+            ("reload-self", r"ob = load_object \(name, 0\);"),
+            ("alloc", r"ob = get_empty_object \(prog->num_variables_total\);")])
+        conds["loadRelookupCond"] = cond("src/simulate.c", load_hdr, r"-Beek\s*\*/\s*if \((.*?)\)\s*\{\s*ob = load_object", "loadRelookupCond")
+        conds["loadDepthCond"] = cond("src/simulate.c", load_hdr, r"if \((\+\+num_objects_this_thread[^;]*?)\)\s*error", "loadDepthCond")
         orders["objectsOrder"] = order("lib/lpc/array.c", r"\nf_objects \(void\)\s*\{", [
             ("collect-loop", r"for \(n = 0, ob = obj_list; ob; ob = ob->next_all\)"),
             ("collect", r"tmp\[n\] = ob;"),
